@@ -929,6 +929,10 @@ def _prim_fits(name, pos, kw, v):
             return None, 'huge'
         if math.isinf(x) or math.isnan(x):
             return None, 'inf'
+        if isinstance(v, int) and x != v:
+            # an integer that no double equals: the repaired compiler (/repo ee06dfb) refuses it for a float member
+            # (C10: the example could not be encoded back to the same document); the lang_ref is silent, so not judged
+            return None, 'inexact-integer'
         if name == 'Float32' and abs(x) > _XF32:
             return (False, 'range') if abs(x) > 2 * _XF32 else (None, 'edge')
         if kw.get('min_value') is not None and x < kw['min_value']:
